@@ -74,7 +74,8 @@ CONSTANTS ProcSeq,     \* updater goroutines, as a sequence (fixes the launch or
           LockPut,     \* referrerPut takes muRefTag        (code: TRUE)
           LockDel,     \* referrerDelete takes muRefTag     (code: FALSE)
           LockDelEarly,\* ... and takes it before cacheRL.Delete
-          CowIndex     \* Add/Delete build a new object     (code: FALSE)
+          CowIndex,    \* Add/Delete build a new object     (code: FALSE)
+          ObsFilters   \* the queries the lister may issue (a subset of Filters)
 
 Procs == {ProcSeq[i] : i \in 1..Len(ProcSeq)}
 PIdx(p) == CHOOSE i \in 1..Len(ProcSeq) : ProcSeq[i] = p
@@ -459,7 +460,7 @@ Next ==
   \/ \E p \in Procs : Step(p)
   \/ \E p \in Procs, o \in Ops : Launch(p, o[1], o[2])
   \/ Quiesce
-  \/ \E s \in Subj, f \in Filters : ListStart(s, f)
+  \/ \E s \in Subj, f \in ObsFilters : ListStart(s, f)
   \/ ListStep
   \/ \E s \in Subj : TagObs(s)
   \/ \E d \in srvIdx : Fetch(d)
